@@ -743,12 +743,12 @@ def _evo_checks(rec, pre, kind, single, cls, key, oa, ob, snap, nxt, b, wit, ded
     # must evolve again, which may fail for reasons unrelated to recovery
     # (NEAT divides by zero on a population with equal fitness).
     return
+  tag = 'unsized-initializer' if kind == 'evolution-unsized-init' else 'sized-initializer'
   ok = rec.case(
-      f'{pre}.next-proposal/{phase}', key, got is not None and got[0] == nxt[1],
+      f'{pre}.next-proposal/{phase}/{tag}', key, got is not None and got[0] == nxt[1],
       f'next proposal of the recovered instance has (proposal_id, initial_population)='
       f'{got and got[0]} (error: {err}); the uninterrupted run proposes {nxt[1]}', wit('next'))
   if ok and gens_ok and single:
-    tag = 'unsized-initializer' if kind == 'evolution-unsized-init' else 'sized-initializer'
     rec.case(f'{pre}.next-proposal-generation/{tag}', key, got[1] == nxt[2],
              f'generation_id of the next proposal: recovered {got[1]}, uninterrupted {nxt[2]}',
              wit('next_gen'))
